@@ -4,6 +4,8 @@
         or that is listed in the supplement below,
   (iii) an explicit panic (call to core::panicking::* / std::rt::begin_panic*, i.e. panic!/assert!/unreachable!/expect-like helpers).
 Sites get a semantic key (function, kind, descriptor, ordinal) - never a line number."""
+import re
+
 from facts import callee_name
 from terms import TermBuilder, show
 import cfg
@@ -98,6 +100,14 @@ def doc_or_supplement(t):
     return False
 
 
+def _named(body, text):
+    """Parameters by name rather than by position (p7 -> current_depth): keys survive a changed parameter list."""
+    def sub(m):
+        i = int(m.group(1))
+        return (body.local_name(i) or m.group(0)) if 1 <= i <= body.arg_count else m.group(0)
+    return re.sub(r"\bp(\d+)\b", sub, text)
+
+
 def inventory(prog, body, with_cleanup=False):
     """All panic sites of one body (blocks reachable from entry, cleanup blocks excluded)."""
     out = []
@@ -111,7 +121,7 @@ def inventory(prog, body, with_cleanup=False):
         macros = t.get("macros", [])
         if t["k"] == "assert":
             tb = tb or TermBuilder(prog, body)
-            ops = ", ".join(show(tb.operand(o))[:60] for o in t["msg_ops"])
+            ops = ", ".join(_named(body, show(tb.operand(o)))[:60] for o in t["msg_ops"])
             out.append(Site(body, bb, "assert:" + t["msg"], "%s(%s)" % (t["msg"], ops), t["line"], t, macros))
         elif t["k"] == "call":
             if "callee" not in t:
